@@ -193,6 +193,7 @@ pub fn exec(case: &str) -> Exec {
             let kind = t.next().unwrap().to_string();
             let arg = t.next().unwrap().to_string();
             ex.tags.push(format!("copies:{kind}"));
+            let mut addbond_failures: Vec<Failure> = Vec::new();
             let built = guarded(|| -> Option<(PDB, Option<Vec<u8>>)> {
                 match kind.as_str() {
                     "text" => {
@@ -210,7 +211,22 @@ pub fn exec(case: &str) -> Exec {
                                 let alt = |p: &PDB, serial: usize| p.models().next().and_then(|m| m.atoms_with_hierarchy().find(|h| h.atom().serial_number() == serial).map(|h| h.conformer().alternative_location().map(|s| s.to_string())));
                                 let (sa, sb) = (a.parse::<usize>().unwrap(), b.parse::<usize>().unwrap());
                                 let (aa, ab) = (alt(&p, sa).flatten(), alt(&p, sb).flatten());
-                                let _ = p.add_bond((sa, aa.as_deref()), (sb, ab.as_deref()), Bond::Covalent);
+                                // where the two atoms stand in the traversal (first model), worked out without the lookup
+                                let pos = |p: &PDB, serial: usize, al: &Option<String>| p.models().next().and_then(|m| m.atoms_with_hierarchy().position(|h| h.atom().serial_number() == serial && h.conformer().alternative_location().map(|s| s.to_string()) == *al));
+                                let (pa, pb) = (pos(&p, sa, &aa), pos(&p, sb, &ab));
+                                let before = p.bonds().count();
+                                let res = p.add_bond((sa, aa.as_deref()), (sb, ab.as_deref()), Bond::Covalent);
+                                match (pa, pb, res) {
+                                    (Some(x), Some(y), Some(())) => {
+                                        let got = bonds_by_position(&p).ok().and_then(|l| l.last().copied());
+                                        if p.bonds().count() != before + 1 || got.map(|g| (g.0, g.1)) != Some((x, y)) {
+                                            addbond_failures.push(Failure::new("bond-does-not-connect-the-atoms-it-was-created-on", format!("({sa},{aa:?})-({sb},{ab:?}): expected positions {x}:{y}, stored {got:?}")));
+                                        }
+                                    }
+                                    (Some(_), Some(_), None) => addbond_failures.push(Failure::new("bond-between-two-existing-atoms-refused", format!("({sa},{aa:?})-({sb},{ab:?})"))),
+                                    (_, _, Some(())) => addbond_failures.push(Failure::new("bond-to-a-missing-atom-accepted", format!("({sa},{aa:?})-({sb},{ab:?})"))),
+                                    _ => {}
+                                }
                             }
                         }
                         Some((p, None))
@@ -229,6 +245,7 @@ pub fn exec(case: &str) -> Exec {
                     }
                 }
             });
+            ex.failures.extend(addbond_failures.drain(..));
             let (pdb, bytes) = match built {
                 Err(m) => { ex.req = "-".into(); ex.resp = "-".into(); ex.failures.push(Failure::new("building-the-structure-panicked", m).feat("kind", &kind)); return ex; }
                 Ok(None) => { ex.req = "-".into(); ex.resp = "-".into(); ex.tags.push("input-rejected".into()); return ex; }
